@@ -72,7 +72,15 @@ func runC15(c *core.Ctx) *core.Outcome {
 	code = append(code, app.Inst{Op: app.HALT})
 	code = append(code, app.Inst{Op: app.INCMP, A: "nb", B: "zz"})
 	if t.Chance(1, 2) {
-		code = append(code, app.Inst{Op: app.INCMP, A: "nc", B: "1"})
+		if t.Chance(1, 2) {
+			code = append(code, app.Inst{Op: app.INCMP, A: "nc", B: "1"})
+		} else {
+			// the matching line leads to a node WITHOUT code, so nothing is appended behind the
+			// following INCMP line, which is decoded (and skipped) while a match is held
+			code = append(code, app.Inst{Op: app.INCMP, A: "ne", B: "1"})
+			code = append(code, app.Inst{Op: app.INCMP, A: "nb", B: "9"})
+			o.Probes["incmp_after_matching_line"]++
+		}
 	} else {
 		code = append(code, app.Inst{Op: app.MOVE, A: "nc"})
 	}
@@ -83,6 +91,7 @@ func runC15(c *core.Ctx) *core.Outcome {
 	for _, n := range []string{"nb", "nc"} {
 		a.Nodes = append(a.Nodes, &app.Node{Name: n, Code: []app.Inst{{Op: app.HALT}, {Op: app.INCMP, A: "_", B: "*"}}, Tpl: map[string]string{"": "@" + n + "|$"}})
 	}
+	a.Nodes = append(a.Nodes, &app.Node{Name: "ne", Code: nil, Tpl: map[string]string{"": "@ne|$"}})
 	a.Nodes = append(a.Nodes, &app.Node{Name: "_catch", Kind: app.KCatch, Code: []app.Inst{{Op: app.HALT}, {Op: app.MOVE, A: "_"}}, Tpl: map[string]string{"": "@_catch|oops$"}})
 	a.Index()
 	good, _ := a.Bytecode("root")
@@ -154,8 +163,13 @@ func runC15(c *core.Ctx) *core.Outcome {
 				break
 			}
 			okRequests++
-			if len(st.Moves) > 1 || (ri > 0 && len(st.Moves) > 0) {
-				moved = true
+			for mi, mv := range st.Moves {
+				if ri == 0 && mi == 0 {
+					continue // the initial fetch of the (damaged) root record
+				}
+				if bc, _ := a.Bytecode(mv); len(bc) > 0 {
+					moved = true // code was appended behind the pending bytes: the tail is no longer what was stored
+				}
 			}
 			if derr != nil && !hasNoop && !moved && s.St != nil {
 				// no success past a malformed instruction: the malformed tail must still be pending
@@ -173,7 +187,7 @@ func runC15(c *core.Ctx) *core.Outcome {
 			}
 		}
 		_ = offs
-		if kind == "truncate" && derr != nil && !hasNoop && lastErr == "" {
+		if kind == "truncate" && derr != nil && !hasNoop && lastErr == "" && !moved {
 			addV("vm-no-error-on-truncated-record", map[string]string{"why": derr.Why}, "the record truncated by %s ends in the middle of instruction %d (%s); two requests executed it without any error (record %x)", desc, derr.Inst, derr.Why, b)
 		}
 	}
